@@ -201,6 +201,13 @@ def relaxPhase [LT K] [DecidableLT K] (p : Path V K) (dot : V → V → K) (sqrt
       let r := relaxPhase p dot sqrt h tol n c'
       (r.1, d :: r.2)
 
+/-- one whole step of the string (`ISMPath.step`): integrate every image (climbing images with the climbing
+    rate and the tangent of the initial string), then re-space; `respace climb rows` stands for the cubic-spline
+    re-spacing between the pinned images (first, last, climbing), which is scipy code outside the model. -/
+def stringStep (p : Path V K) (dot : V → V → K) (sqrt : K → K) (respace : List Nat → List V → List V)
+    (h : K) (climb : List Nat) : Path V K :=
+  p.withCoord (respace climb (p.icoord dot sqrt h climb))
+
 end stepping
 
 /-- `default_timestep = 0.05 * min(0.2, 1/N)`, `default_tolerance = max(N^-4, 1e-10)`. -/
